@@ -6,6 +6,7 @@ pub enum J {
     Str(String),
     Arr(Vec<J>),
     Obj(Vec<(String, J)>),
+    Raw(String),
 }
 
 impl J {
@@ -46,6 +47,7 @@ impl J {
             J::Bool(b) => out.push_str(if *b { "true" } else { "false" }),
             J::Num(n) => out.push_str(&format!("{}", n)),
             J::Str(s) => J::esc(s, out),
+            J::Raw(s) => out.push_str(s),
             J::Arr(a) => {
                 out.push('[');
                 for (i, x) in a.iter().enumerate() {
